@@ -207,7 +207,7 @@ class Engine:
         return sat
 
     # -- helpers built on them ---------------------------------------------
-    def concretize(self, term, cap=64):
+    def concretize(self, term, cap=400):
         """fork over all feasible values of an Int term; returns a python int"""
         if isinstance(term, int):
             return term
